@@ -41,7 +41,16 @@ fn main() {
     };
     let mut rep = StageReport::new(&property, &stage, &tier, seed);
     // keep the default hook quiet: decoders are expected to panic on a defective tree
-    std::panic::set_hook(Box::new(|_| {}));
+    std::panic::set_hook(Box::new(|info| {
+        // panics on the main thread are harness errors and must be visible
+        if std::thread::current().name() == Some("main") && std::env::var("VERIF_QUIET_MAIN").is_err() {
+            if let Some(l) = info.location() {
+                if l.file().starts_with("src/") {
+                    eprintln!("harness panic at {}:{}: {:?}", l.file(), l.line(), info.payload().downcast_ref::<String>().cloned().or(info.payload().downcast_ref::<&str>().map(|s| s.to_string())));
+                }
+            }
+        }
+    }));
     match property.as_str() {
         "C05" => c05::run(&mut rep, &tier, seed),
         "C06" => {
